@@ -64,3 +64,74 @@ extern "C" void h_isolation(void) {
    }
    vp_done();
 }
+// coarse interleavings on one thread: the operations of a program on Lexicon A (build a zoo case, look basic names up in both families,
+// decompose, print the unit) are interleaved, under a symbolic schedule, with operations on Lexicon B; A's observable results (refusals,
+// set values, decompositions, printed text) must be those of the same program run alone on a third Lexicon.  This is the
+// "each thread obtains exactly the results it would obtain alone" clause for the schedules that switch between whole operations; it
+// also sees state that is shared per thread rather than per process (thread_local), which no race detector reports.
+namespace {
+   struct Program_result { int refused[4]; uint64_t bits[2]; std::size_t dsize[2]; int print_outcome; std::ostringstream* text; };
+   struct Program {
+      zoo::World* w; unsigned which; const ipr::Logogram* cq; const ipr::Logogram* pub; const ipr::Logogram* vol;
+      explicit Program(unsigned k) : w(new zoo::World), which(k) {
+         w->concrete = true; w->printable = true;
+         cq = &w->lx.get_logogram(w->lx.get_string(u8"const")); pub = &w->lx.get_logogram(w->lx.get_string(u8"public")); vol = &w->lx.get_logogram(w->lx.get_string(u8"volatile"));
+      }
+      void build() { zoo::Null_visitor nv; zoo::build(*w, which, nv); }
+      void lookups(Program_result& r) {
+         const ipr::Lexicon& lx = w->lx; r.bits[0] = r.bits[1] = 0;
+         r.refused[0] = vp_outcome([&] { r.bits[0] = util::rep(lx.qualifiers(ipr::Basic_qualifier{ *cq })); });
+         r.refused[1] = vp_outcome([&] { (void)lx.specifiers(ipr::Basic_specifier{ *cq }); });             // a qualifier name is not a specifier name
+         r.refused[2] = vp_outcome([&] { r.bits[1] = util::rep(lx.specifiers(ipr::Basic_specifier{ *pub })); });
+         r.refused[3] = vp_outcome([&] { (void)lx.qualifiers(ipr::Basic_qualifier{ *pub }); });
+      }
+      void decompose(Program_result& r) {
+         r.dsize[0] = w->lx.decompose(w->lx.static_specifier() | w->lx.constexpr_specifier() | w->lx.extern_specifier()).size();
+         r.dsize[1] = w->lx.decompose(w->lx.const_qualifier() | w->lx.restrict_qualifier()).size();
+      }
+      void print(Program_result& r) { r.text = new std::ostringstream; Printer pp { w->lx, *r.text }; pp.print_locations = true; r.print_outcome = vp_outcome([&] { pp << w->unit; }); }
+   };
+   // what B does in a slot: the mirror-image operations, so that anything remembered between calls is remembered about the other Lexicon
+   void other(Program& b, unsigned slot, unsigned last = 0) {
+      Program_result r;
+      switch (slot) {
+      case 0: b.build(); break;
+      case 1: { const ipr::Lexicon& lx = b.w->lx;        // B's last lookup is the valid one whose name A is about to ask the other family for
+                vp_outcome([&] { (void)lx.qualifiers(ipr::Basic_qualifier{ *b.vol }); });
+                if (last == 0) { vp_outcome([&] { (void)lx.specifiers(ipr::Basic_specifier{ *b.pub }); }); vp_outcome([&] { (void)lx.qualifiers(ipr::Basic_qualifier{ *b.cq }); }); }
+                else { vp_outcome([&] { (void)lx.qualifiers(ipr::Basic_qualifier{ *b.cq }); }); vp_outcome([&] { (void)lx.specifiers(ipr::Basic_specifier{ *b.pub }); }); }
+                break; }
+      case 2: b.w->lx.decompose(b.w->lx.virtual_specifier() | b.w->lx.inline_specifier()); b.w->lx.decompose(b.w->lx.volatile_qualifier()); break;
+      default: b.print(r); break;
+      }
+   }
+}
+extern "C" void h_interleaved(void) {
+   unsigned total = zoo::count();
+   unsigned which = vp_pick(total);
+   vp_observe(1, which);
+   Program_result solo, inter;
+   { Program p(which); p.build(); p.lookups(solo); p.decompose(solo); p.print(solo); }
+   Program a(which), b((which + 1) % total);
+   bool s0 = vp_flag(), s1 = vp_flag(), s2 = vp_flag(), s3 = vp_flag();
+   if (s0) other(b, 0);
+   a.build();
+   if (s1) other(b, 1);
+   { const ipr::Lexicon& lx = a.w->lx; inter.bits[0] = inter.bits[1] = 0;                      // A's lookups, with B's lookups possibly in between
+     inter.refused[0] = vp_outcome([&] { inter.bits[0] = util::rep(lx.qualifiers(ipr::Basic_qualifier{ *a.cq })); });
+     if (s1) other(b, 1);
+     inter.refused[1] = vp_outcome([&] { (void)lx.specifiers(ipr::Basic_specifier{ *a.cq }); });
+     inter.refused[2] = vp_outcome([&] { inter.bits[1] = util::rep(lx.specifiers(ipr::Basic_specifier{ *a.pub })); });
+     if (s1) other(b, 1, 1);
+     inter.refused[3] = vp_outcome([&] { (void)lx.qualifiers(ipr::Basic_qualifier{ *a.pub }); }); }
+   if (s2) other(b, 2);
+   a.decompose(inter);
+   if (s3) other(b, 3);
+   a.print(inter);
+   for (int i = 0; i < 4; ++i) vp_assert(inter.refused[i] == solo.refused[i], 10);
+   vp_assert(solo.refused[0] == 0 && solo.refused[1] != 0 && solo.refused[2] == 0 && solo.refused[3] != 0, 11);
+   vp_assert(inter.bits[0] == solo.bits[0] && inter.bits[1] == solo.bits[1], 12);
+   vp_assert(inter.dsize[0] == solo.dsize[0] && inter.dsize[1] == solo.dsize[1] && solo.dsize[0] == 3 && solo.dsize[1] == 2, 13);
+   vp_assert(inter.print_outcome == solo.print_outcome && vp_streams_equal(inter.text, solo.text), 14);
+   vp_done();
+}
